@@ -98,6 +98,7 @@ BUILTIN = {
     'void': 'void', 'unsignedlonglong': 'unsigned long long', 'longlong': 'long long',
     'char': 'char', 'unsignedchar': 'unsigned char', 'signedchar': 'signed char', 'long': 'long',
     'short': 'short', 'unsignedshort': 'unsigned short', 'std::nullptr_t': 'void *', 'nullptr_t': 'void *',
+    'uint8_t': 'unsigned char', 'std::uint8_t': 'unsigned char', 'uint32_t': 'unsigned int', 'uint64_t': 'unsigned long', 'int64_t': 'long', 'int32_t': 'int',
     'std::ptrdiff_t': 'long', 'ptrdiff_t': 'long', 'double': 'double', 'float': 'float',
 }
 
@@ -270,6 +271,7 @@ class Index:
                 d = self.defn.get(m['id'])
                 if d is not None and find_this(d): break
         for dd in (False, True):
+            if not rec.get('name'): break          # closure types: named by source position only
             q = norm(self.qualname(rec, dd))
             names.add(q)
             # clang's -ast-dump-filter drops the namespace parent of top-level matches: the driver's own helper
